@@ -341,7 +341,7 @@ def run(tier, seed):
     t0 = time.time()
     units = [(tier, typ, insts) for (_p, _t, typ, insts) in propmc.units_for(PROP, tier, RESTRICTED)]
     acc = pmap(trig_unit, units, seed)
-    eng, nspecs = SC.run_units(unit, tier, seed, ("F1", "F2", "F3", "F4"), chunk=20, filt=lambda s: eligible(s, tier))
+    eng, nspecs = SC.run_units(unit, tier, seed, ("F1", "F2", "F3", "F4", "F5"), chunk=20, filt=lambda s: eligible(s, tier))
     acc.merge(eng)
     cov = {
         "states": acc.c["sched_states"] + acc.c["states"] + acc.c["fixpoint_boxes"],
